@@ -1133,7 +1133,7 @@ def check_reentry(acc):
                         acc.violation({"oracle": "call_made_from_a_callback_gives_what_it_gives_alone", "inner": name.split("(")[0]}, {"case": case, "observed": repr(inner)[:400], "expected": repr(alone)[:400]})
 
 
-def check_same_instance_in_flight(acc, bases=None):
+def check_same_instance_in_flight(acc, bases=None, outer=None, inner=None):
     """Two passes in flight on ONE middleware instance (user block middlewares and user subclasses of shipped ones - the
     shipped block middlewares declare allow_parallel_execution): while the outer pass is at its k-th entry, the hook runs the
     same instance over another library, inline or in a second thread.  Each pass returns its own library's blocks."""
@@ -1163,13 +1163,16 @@ def check_same_instance_in_flight(acc, bases=None):
 
     outer_text = "@a{o1, month = jan, x = 1}\n% c\n@a{o2, month = 2, y = 2}\n@string{s = {v}}\n@a{o3, month = mar}\n"
     inner_text = "@b{i1, month = 11}\n@b{i2, month = dec, z = 3}\n@comment{ic}\n"
-    sig = lambda lib: [(type(b).__name__, getattr(b, "key", None), [(f.key, f.value) for f in getattr(b, "fields", [])]) for b in lib.blocks]
+    inner_of = lambda b: getattr(b, "ignore_error_block", None)
+    sig = lambda lib: [(type(b).__name__, getattr(b, "key", None), [(f.key, repr(f.value)) for f in getattr(b, "fields", [])], (type(inner_of(b)).__name__, getattr(inner_of(b), "key", None), [(f.key, repr(f.value)) for f in getattr(inner_of(b), "fields", [])]) if inner_of(b) is not None else None) for b in lib.blocks]
     bases = bases or {"user block middleware": BlockMiddleware, "MonthIntMiddleware": mw.MonthIntMiddleware, "NormalizeFieldKeys": mw.NormalizeFieldKeys, "RemoveEnclosingMiddleware": mw.RemoveEnclosingMiddleware}
     for bname, base in bases.items():
         for inplace in (True, False):
             cls = make(base, inplace)
-            plain = lambda text: attempt(lambda: sig(cls().transform(Splitter(text).split())))
-            exp_outer, exp_inner = plain(outer_text), plain(inner_text)
+            mk_outer = outer or (lambda: Splitter(outer_text).split())
+            mk_inner = inner or (lambda: Splitter(inner_text).split())
+            plain = lambda mk: attempt(lambda: sig(cls().transform(mk())))
+            exp_outer, exp_inner = plain(mk_outer), plain(mk_inner)
             for at in (0, 1, 2):
                 for threaded in (False, True):
                     case = {"same_instance_in_flight": bname, "inplace": inplace, "at_entry": at, "in_another_thread": threaded}
@@ -1177,8 +1180,22 @@ def check_same_instance_in_flight(acc, bases=None):
                     acc.case(nontrivial_key=("same-instance", bname, inplace, at, threaded))
                     acc.count("same_instance_passes_in_flight")
                     m = cls()
-                    m.at, m.threaded, m.other, m.sig = at, threaded, (lambda: Splitter(inner_text).split()), sig
-                    got = attempt(lambda: sig(m.transform(Splitter(outer_text).split())))
+                    made = {}
+
+                    def other():
+                        made["inner"] = mk_inner()
+                        made["inner_before"] = canon(made["inner"])
+                        return made["inner"]
+
+                    m.at, m.threaded, m.other, m.sig = at, threaded, other, sig
+                    made["outer"] = mk_outer()
+                    made["outer_before"] = canon(made["outer"])
+                    got = attempt(lambda: sig(m.transform(made["outer"])))
+                    if not inplace and got[0] == "ok":
+                        # a copying instance leaves its input as it was - also the input of the pass in flight
+                        for which in ("outer", "inner"):
+                            if which in made and canon(made[which]) != made[which + "_before"]:
+                                acc.violation({"oracle": "copying_instance_leaves_its_input", "which_pass": which, "base": bname}, {"case": case, "observed": "the input library of the " + which + " pass changed", "expected": "equal to what it was"})
                     acc.step(("same instance", bname, inplace), ("inner at", at, threaded), hash(repr(got)))
                     if got != exp_outer:
                         acc.violation({"oracle": "outer_pass_unaffected_by_a_pass_in_flight_on_the_same_instance", "base": bname}, {"case": case, "observed": repr(got)[:400], "expected": repr(exp_outer)[:400]})
